@@ -1,0 +1,53 @@
+//go:build verif
+
+package values
+
+// Contracts for the verification machinery in /verif (govc). Comment-only file:
+// compiled only with -tags verif, and even then it contains no code.
+
+//@ define isint(k Int) Bool = k >= 2 && k <= 12
+//@ define issint(k Int) Bool = k >= 2 && k <= 6
+//@ define isflt(k Int) Bool = k == 13 || k == 14
+//@ define isnum(k Int) Bool = isint(k) || isflt(k)
+//@ define isarr(k Int) Bool = k == 17 || k == 23
+
+//@ func values.isIntKind
+//@ pure
+//@ props C09 C18 C01
+//@ ensures def: result == isint(k)
+
+//@ func values.isFloatKind
+//@ pure
+//@ props C09 C18 C01
+//@ ensures def: result == isflt(k)
+
+//@ func values.joinKind
+//@ pure
+//@ props C09 C18 C01
+//@ ensures same: a == b ==> result == a
+//@ ensures arr: a != b && isarr(a) && isarr(b) ==> result == reflect.Slice
+//@ ensures ints: a != b && isint(a) && isint(b) ==> result == reflect.Int64
+//@ ensures mixed: a != b && isnum(a) && isnum(b) && (isflt(a) || isflt(b)) ==> result == reflect.Float64
+//@ ensures unlike: a != b && !(isarr(a) && isarr(b)) && !(isnum(a) && isnum(b)) ==> result == reflect.Invalid
+
+//@ lemma join_sym [C09] (a reflect.Kind, b reflect.Kind): values.joinKind(a, b) == values.joinKind(b, a)
+
+//@ func (values.Range).Len
+//@ pure
+//@ props C11 C01
+//@ ensures clamp: result == max(0, r.e - r.b + 1)
+
+//@ func (values.Range).Index
+//@ pure
+//@ props C11 C01
+//@ requires inrange: 0 <= i && i < max(0, r.e - r.b + 1)
+//@ ensures nth: result == box(r.b + i)
+
+//@ func (values.Range).AsArray
+//@ props C11 C15 C01
+//@ ensures length: len(result) == max(0, r.e - r.b + 1)
+//@ ensures elems: forall(k, 0, len(result), result[k] == box(r.b + k))
+//@ loop 1 invariant idx: r.b <= i && i <= max(r.e + 1, r.b)
+//@ loop 1 invariant length: len(a) == i - r.b && cap(a) >= max(0, r.e - r.b + 1)
+//@ loop 1 invariant elems: forall(k, 0, len(a), a[k] == box(r.b + k))
+//@ loop 1 decreases r.e + 1 - i
